@@ -23,7 +23,7 @@ KEY_CVODE_LOW = "C12:cvode-low-order-global-error"
 
 # ----------------------------------------------------------------------------------------- T-gen
 
-GEN_STATE = {"step_ok": True, "tableau_ok": True, "restart_ok": True, "transport_ok": True, "last_good_source": None}
+GEN_STATE = {"step_ok": True, "tableau_ok": True, "restart_ok": True, "transport_ok": True, "bind_ok": True, "last_good_source": None}
 KEY_RESTART_STATE = "C12:cvode-restart-state-from-failed-attempt"
 
 
@@ -35,7 +35,8 @@ def gen():
     errs = []
     for fname, fn, flag in (("Gen_C12_Tableau.v", c12_gen.gen_tableau, "tableau_ok"), ("Gen_C12_Step.v", c12_gen.gen_step, "step_ok"),
                             ("Gen_C12_Restart.v", c12_gen.gen_restart, "restart_ok"),
-                            ("Gen_C12_Transport.v", c12_gen.gen_transport_time, "transport_ok")):
+                            ("Gen_C12_Transport.v", c12_gen.gen_transport_time, "transport_ok"),
+                            ("Gen_C12_Bind.v", c12_gen.gen_bind, "bind_ok")):
         p = os.path.join(gdir, fname)
         try:
             vlib.write_if_changed(p, fn(vlib.REPO))
@@ -74,6 +75,8 @@ RATE_PROGRAMS = {
     "revA": ["10 rate = PARM(1) * M - PARM(2) * KIN(\"Bb\")", "20 SAVE rate * TIME"],
     "revB": ["10 rate = PARM(2) * M - PARM(1) * KIN(\"Aa\")", "20 SAVE rate * TIME"],
     "chainB": ["10 rate = PARM(2) * M - PARM(1) * KIN(\"Aa\")", "20 SAVE rate * TIME"],
+    # reads M0: must be the user-defined -m0 for the whole life of the reactant, whatever amount a step starts from
+    "m0dep": ["10 rate = PARM(1) * M0 + PARM(2) * M", "20 SAVE rate * TIME"],
 }
 
 
@@ -112,7 +115,7 @@ def shipped_scenario(rng, kind=None):
 
 def scenario(rng, fam=None):
     """one rate-law instance: family, parameters, tolerance, total time"""
-    fam = fam or rng.choice(["zero", "first", "first", "rev", "chain", "ramp", "zero_exhaust", "shipped"])
+    fam = fam or rng.choice(["zero", "first", "m0dep", "rev", "chain", "ramp", "zero_exhaust", "shipped", "m0dep"])
     if fam == "shipped":
         return shipped_scenario(rng)
     tol = rng.choice(["1e-6", "1e-7", "1e-8", "1e-8", "1e-9", "1e-10", "1e-11"])
@@ -128,6 +131,13 @@ def scenario(rng, fam=None):
     elif fam == "first":
         z = rng.choice([0.05, 0.3, 1.0, 3.0, 8.0]) * rng.uniform(0.5, 1.0)
         sc.update(m0=m0, k=dec(z / T))
+    elif fam == "m0dep":
+        # -m may differ from -m0 (reactant partly used up before); M stays positive: c = k0*m0/k1 = f*m, (1+f)exp(-z) > f
+        m = dec(float(m0) * rng.choice([1.0, 0.8, 0.5, 0.3]))
+        z = rng.choice([0.2, 0.6, 1.5]) * rng.uniform(0.6, 1.0)
+        f = rng.uniform(0.02, 0.15)
+        k1 = dec(z / T)
+        sc.update(m0=m0, m=m, k1=k1, k0=dec(f * float(k1) * float(m) / float(m0)))
     elif fam == "ramp":
         f0 = rng.uniform(0.0, 0.4)
         f1 = rng.uniform(0.1, 0.5)
@@ -162,6 +172,8 @@ def reactants(sc):
         return [("Aa", "zero", sc["m0"], [sc["r"]])]
     if f == "first":
         return [("Aa", "first", sc["m0"], [sc["k"]])]
+    if f == "m0dep":
+        return [("Aa", "m0dep", sc["m"], [sc["k0"], sc["k1"]])]      # third entry = amount the calculation starts from
     if f == "ramp":
         return [("Aa", "ramp", sc["m0"], [sc["r0"], sc["r1"]])]
     if f == "rev":
@@ -179,6 +191,8 @@ def closed_forms_coq(sc):
         return {"Aa": "(cf_zero %s %s)" % (q(sc["m0"]), q(sc["r"]))}
     if f == "first":
         return {"Aa": "(cf_first %s %s)" % (q(sc["m0"]), q(sc["k"]))}
+    if f == "m0dep":
+        return {"Aa": "(cf_m0dep %s %s %s %s)" % (q(sc["m0"]), q(sc["m"]), q(sc["k0"]), q(sc["k1"]))}
     if f == "ramp":
         return {"Aa": "(cf_ramp %s %s %s)" % (q(sc["m0"]), q(sc["r0"]), q(sc["r1"]))}
     if f == "rev":
@@ -197,6 +211,9 @@ def closed_forms_py(sc, t):
         return {"Aa": g(sc["m0"]) - g(sc["r"]) * t}
     if f == "first":
         return {"Aa": g(sc["m0"]) * math.exp(-g(sc["k"]) * t)}
+    if f == "m0dep":
+        c = g(sc["k0"]) * g(sc["m0"]) / g(sc["k1"])
+        return {"Aa": (g(sc["m"]) + c) * math.exp(-g(sc["k1"]) * t) - c}
     if f == "ramp":
         return {"Aa": g(sc["m0"]) - g(sc["r0"]) * t - g(sc["r1"]) * t * t / 2}
     a0, b0, k1, k2 = g(sc["a0"]), g(sc["b0"]), g(sc["k1"]), g(sc["k2"])
@@ -319,7 +336,7 @@ def input_text(sc, v):
         L.append("INCREMENTAL_REACTIONS false")
     L.append("KINETICS 1")
     for name, prog, m0, parms in reactants(sc):
-        L += [" %s" % name, "  -formula NaCl 1", "  -m0 %s" % m0, "  -m %s" % m0, "  -parms %s" % " ".join(parms), "  -tol %s" % sc["tol"]]
+        L += [" %s" % name, "  -formula NaCl 1", "  -m0 %s" % (sc["m0"] if sc["family"] == "m0dep" else m0), "  -m %s" % m0, "  -parms %s" % " ".join(parms), "  -tol %s" % sc["tol"]]
     L.append(" -steps %s" % v["steps"])
     L += [" " + o for o in v["opts"]]
     names = [r[0] for r in reactants(sc)]
@@ -549,6 +566,8 @@ def column_text(m):
     n = m["cells"]
     if m["order"] == 1:
         prog = ["  10 rate = PARM(1) * M", "  20 SAVE rate * TIME"]
+    elif m["order"] == 2:
+        prog = ["  10 rate = PARM(1) * M0 + PARM(2) * M", "  20 SAVE rate * TIME"]
     else:
         prog = ["  10 rate = PARM(1)", "  20 IF (M <= 0) THEN rate = 0", "  30 SAVE rate * TIME"]
     L = ["RATES", " Aa", " -start"] + prog + [" -end",
@@ -571,11 +590,14 @@ def column_case(rng, i):
     integ = [["-runge_kutta 1"], ["-runge_kutta 2"], ["-runge_kutta 3"], ["-runge_kutta 6"], ["-cvode true"]]
     dt = rng.choice([10, 100, 3600, 86400])
     shifts = rng.choice([2, 3, 4, 5])
-    m = {"cells": rng.choice([2, 3, 4, 5]), "shifts": shifts, "dt": dt, "order": rng.choice([1, 1, 0]),
+    m = {"cells": rng.choice([2, 3, 4, 5]), "shifts": shifts, "dt": dt, "order": rng.choice([1, 2, 0, 2]),
          "m0": dec(rng.choice([1e-3, 1e-2, 5e-2]) * rng.uniform(0.5, 1.0)), "tol": rng.choice(["1e-7", "1e-8", "1e-9", "1e-10"]),
          "opts": rng.choice(integ)}
     if m["order"] == 1:
         m["k"] = dec(rng.choice([0.05, 0.5, 2.0]) * rng.uniform(0.5, 1.0) / (dt * shifts))
+    elif m["order"] == 2:
+        k1 = rng.choice([0.3, 0.8, 1.4]) * rng.uniform(0.6, 1.0) / (dt * shifts)
+        m["k"] = "%s %s" % (dec(rng.uniform(0.02, 0.15) * k1), dec(k1))          # rate = k0*M0 + k1*M, M0 = -m0 in every shift
     else:
         m["k"] = dec(float(m["m0"]) * rng.uniform(0.1, 0.8) / (dt * shifts))
     kind = ["adv", "forward", "backward", "diffusion_only", "backward", "forward"][i % 6]
@@ -601,6 +623,9 @@ def column_case(rng, i):
 
 
 def column_sc(m):
+    if m["order"] == 2:
+        k0, k1 = m["k"].split()
+        return {"family": "m0dep", "m0": m["m0"], "m": m["m0"], "k0": k0, "k1": k1, "tol": m["tol"]}
     if m["order"] == 1:
         return {"family": "first", "m0": m["m0"], "k": m["k"], "tol": m["tol"]}
     return {"family": "zero", "m0": m["m0"], "r": m["k"], "tol": m["tol"]}
@@ -677,6 +702,8 @@ def run_columns(ctx, n, cases=None):
 
 # fixed corpus: one case per transport mode (regression cases of the seeded change C12-c: backward flow, nmix = 0 and > 0)
 COLUMN_CORPUS = [
+    {"cells": 3, "shifts": 4, "dt": 100, "order": 2, "m0": "0.02", "k": "2e-4 2e-3", "tol": "1e-8", "opts": ["-runge_kutta 3"], "mode": "adv", "flow": "-", "bc": "-", "disp": "0", "diffc": "0", "length": "1"},
+    {"cells": 3, "shifts": 4, "dt": 100, "order": 2, "m0": "0.02", "k": "2e-4 2e-3", "tol": "1e-8", "opts": ["-cvode true"], "mode": "tr", "flow": "forward", "bc": "flux flux", "disp": "0.3", "diffc": "0.3e-9", "length": "1"},
     {"cells": 3, "shifts": 5, "dt": 100, "order": 1, "m0": "0.01", "k": "0.001", "tol": "1e-8", "opts": ["-runge_kutta 3"], "mode": "tr", "flow": "backward", "bc": "flux flux", "disp": "0", "diffc": "0", "length": "1"},
     {"cells": 4, "shifts": 4, "dt": 100, "order": 1, "m0": "0.01", "k": "0.001", "tol": "1e-8", "opts": ["-cvode true"], "mode": "tr", "flow": "backward", "bc": "flux flux", "disp": "0.4", "diffc": "0.3e-9", "length": "1"},
     {"cells": 3, "shifts": 4, "dt": 100, "order": 0, "m0": "0.01", "k": "1e-5", "tol": "1e-8", "opts": ["-runge_kutta 6"], "mode": "tr", "flow": "forward", "bc": "constant constant", "disp": "0.4", "diffc": "0.3e-9", "length": "1"},
@@ -901,6 +928,43 @@ def continuation_corpus(ctx):
                          "only the fixed continuation corpus (budgets %s excluded from the verdict by the known finding)" % (CONT_BAD_WITH_Y,))
 
 
+REUSE_SC = {"family": "m0dep", "tol": "1e-9", "m0": "0.02", "m": "0.016", "k0": "2e-5", "k1": "1e-3", "T": 300, "incs": ["100", "100", "100"], "nequal": 3}
+
+
+def reuse_corpus(ctx):
+    """fixed corpus: a reactant whose rate reads M0 (rate = k0*M0 + k1*M, -m0 0.02, -m 0.016) is integrated over 300 s, the saved
+    KINETICS is re-USEd in a later simulation (another 300 s) and then advanced by two RUN_CELLS of 150 s: the amounts must follow
+    ONE closed form with M0 = 0.02 at 300, 600, 750 and 900 s"""
+    sc = REUSE_SC
+    jobs, vs = [], {}
+    for iname, opts in (("rk3", ["-runge_kutta 3"]), ("rk6", ["-runge_kutta 6"]), ("cvode", ["-cvode true"])):
+        v = {"name": "single/" + iname, "steps": "300", "incr": False, "list": ["300"], "eq": False, "cnt": 1, "opts": opts}
+        txt = input_text(sc, v).replace(" -step true", " -step true\n -simulation true")
+        txt += "USE solution 1\nUSE kinetics 1\nEND\nRUN_CELLS\n -cells 1\n -time_step 150\nEND\nRUN_CELLS\n -cells 1\n -time_step 150\nEND\n"
+        vs[iname] = txt
+        jobs.append({"id": "reuse-" + iname, "db": "phreeqc.dat", "text": txt})
+    res = vlib.run_inputs(jobs, timeout_each=90, workers=3)
+    cf = closed_forms_coq(sc)["Aa"]
+    exprs, metas = [], []
+    for iname, txt in vs.items():
+        r = res.get("reuse-" + iname) or {}
+        rows = [x for x in vlib.table_dicts(r.get("tables", {}).get("1") or []) if isinstance(x.get("step"), int) and x["step"] >= 1] if r.get("rc") == 0 else []
+        if len(rows) != 4:
+            ctx.notes.append("reuse corpus %s: %d rows (rc=%s %s)" % (iname, len(rows), r.get("rc"), (r.get("err") or "")[:80]))
+            continue
+        for row, t, what in zip(rows, (300, 600, 750, 900), ("first calculation", "saved KINETICS re-USEd", "RUN_CELLS 1", "RUN_CELLS 2")):
+            exprs.append("check_closed %s %s %s %s" % (cf, vlib.coq_Q(float(t)), vlib.coq_Q(row["k_Aa"]), vlib.coq_Q(100 * fr(sc["tol"]))))
+            metas.append((iname, txt, what, t, row["k_Aa"], closed_forms_py(sc, float(t))["Aa"]))
+    for (iname, txt, what, t, obs, exp), ok in zip(metas, coq_bools(exprs)):
+        ctx.case("reuse:%s:%s" % (iname, what), sample={"reuse corpus": iname, "stage": what, "elapsed": t, "observed": obs, "exact": exp, "accepted": bool(ok)})
+        if ok is None:
+            ctx.obligation("coq-evaluation-of-reuse-corpus", False, "corpus cases did not evaluate")
+        elif not ok:
+            ctx.violation("C12:reuse:%s:%s" % (iname, what.replace(" ", "_")),
+                          "rate reading M0 (k0*M0 + k1*M, -m0 0.02 -m 0.016), %s, %s after %d s in total: M = %r, exact %r (100 tol = 1e-7)" % (iname, what, t, obs, exp),
+                          {"kind": "input", "database": "phreeqc.dat", "input_text": txt, "observed": obs, "expected": exp, "scenario": sc, "variant": "reuse/" + iname})
+
+
 # ----------------------------------------------------------------------------------------- entry points
 
 def finish_info(ctx):
@@ -936,6 +1000,8 @@ def replay(ctx):
         low_order_probe(ctx)
     elif key == KEY_RESTART_STATE or key.startswith("C12:continuation:"):
         continuation_corpus(ctx)
+    elif key.startswith("C12:reuse:"):
+        reuse_corpus(ctx)
     elif "column" in rp:
         replay_column(ctx, rp)
     else:
@@ -960,14 +1026,15 @@ def run(ctx):
     known_probes(ctx)
     low_order_probe(ctx)
     continuation_corpus(ctx)
+    reuse_corpus(ctx)
     vlib.log("[C12] probes %.1fs" % (time.time() - t0)); t0 = time.time()
     run_traces(ctx, ctx.n(12, 120))
     vlib.log("[C12] traces %.1fs" % (time.time() - t0)); t0 = time.time()
     run_columns(ctx, 0, cases=[dict(c) for c in COLUMN_CORPUS])
     run_columns(ctx, ctx.n(18, 90))
     vlib.log("[C12] columns %.1fs" % (time.time() - t0)); t0 = time.time()
-    n = ctx.n(14, 180)
-    fams = ["zero", "first", "rev", "chain", "ramp", "zero_exhaust", "shipped", "shipped"]
+    n = ctx.n(16, 180)
+    fams = ["zero", "first", "rev", "chain", "ramp", "zero_exhaust", "shipped", "shipped", "m0dep", "m0dep"]
     scs = [scenario(ctx.rng, fams[i] if i < len(fams) else None) for i in range(n)]
     if not ok:
         # broken obligation: search harder around the integrator: all variants for every scenario, plus scenarios with the
@@ -982,7 +1049,7 @@ def run(ctx):
         run_scenarios(ctx, scs, full=False)
         if ctx.thorough:
             run_scenarios(ctx, scs[:12], full=True, label="full")
-    ctx.rule = ("closed-form families zero / zero_exhaust / first / reversible A<->B / chain A->B / ramp(TOTAL_TIME), m0 3e-4..5e-2 mol, and the shipped rates Calcite, Pyrite, Organic_C, K-feldspar of phreeqc.dat (invariance only), "
+    ctx.rule = ("closed-form families zero / zero_exhaust / first / reversible A<->B / chain A->B / ramp(TOTAL_TIME) / m0dep (rate k0*M0 + k1*M with -m <= -m0), m0 3e-4..5e-2 mol, and the shipped rates Calcite, Pyrite, Organic_C, K-feldspar of phreeqc.dat (invariance only), "
                 "k*T 0.02..8, tol 1e-6..1e-11, T 10..1e6 s, each run with -runge_kutta 1/2/3/6, -cvode (orders 5/3/2, steps 100/300/500), "
                 "(-cvode_order 2 only for tol >= 1e-7, order 3 for tol >= 1e-9: known finding), -bad_step_max, -step_divide, and T reached as one step / cumulative list / incremental list / 'T in N steps' cumulative / incremental; "
                 "a case = one Coq-evaluated check (closed form within 100 tol by the verified interval checker, pairwise agreement, KIN_TIME vs regenerated Current_step, "
